@@ -1,5 +1,6 @@
 """C11 - merging keeps each inner's order and completes when all complete (OpsMerge.tla, Binding A)."""
 from harness import core
+from props import expand_common as xc
 from props import merge_common as mc
 
 ALL3 = {"C", "E", "U"}
@@ -67,6 +68,8 @@ def run(tier):
     mc.replay_groups(ck, groups, profiles, light=(tier != "quick"))
     mc.binding_selftest(ck, groups)
     ck.nontrivial = sum(1 for g in groups if mc.nontrivial(*g))
+    # growth beyond the listed operators: expand (Expand.tla); a mismatch there is reported as model drift, never as a violation of C11
+    xc.run_growth(ck, tier)
     ck.rule = ("outer timelines (<= 3-4 inner arrivals at chosen ticks, ending in completion, error or nothing) x tables of inner "
                "timelines (shape classes: overlapping, finished before the next arrives, erroring, never terminating; thorough: "
                "every table within bounds) x inner flavour (cold, emitting synchronously at subscription, hot) x max_concurrent x "
